@@ -13,6 +13,18 @@ CHECKS = {
          "Exploration: hundreds of thousands of generated rule-set x arrival histories per run, each request judged against an independent reference (sum of admitted tokens in the rule's bucket-aligned window, computed from the log by definition). Arrival instants are drawn from a menu that makes exact bucket boundaries, interval+-1 and full-ring expiry common, which is where unit tests cannot reach.",
          "Trusted: the virtual-clock hook, the documented mapping stat_interval_ms -> window geometry under the default configuration, sequential requests.",
          "5/C01"),
+ "C02": ("proptest byte-decoded ring geometries + event histories vs definitional event-list model; must-refuse/must-accept window construction",
+         "Exploration: generated (ring geometry x read windows x write/read history) triples; every read of sum/qps/qps_previous/avg_rt/min_rt and raw ring counts for all five event kinds is compared with a model that computes the window from the event list by definition; unservable windows must be refused, tiling windows accepted.",
+         "Trusted: hook re-exports of the crate-private window types, virtual clock for *_now readers; ambiguous windows (neither must-refuse nor canonical) may go either way but must count exactly if accepted.",
+         "5/C02"),
+ "C04": ("proptest build/exit histories over several resources vs in-flight + event-list model compared after every step",
+         "Exploration: generated interleavings of build/exit on 2-3 resources (inbound/outbound, batch 1..5, optional blocking rule of each family); after every step every resource node and the global inbound node are compared with an independent accounting model (in-flight, pass/block/complete/rt sums in the 10 s and default windows).",
+         "Trusted: virtual clock; default window geometry; >= 20 s virtual gap between cases isolates the shared inbound node.",
+         "5/C04"),
+ "C05": ("proptest build/exit interleavings vs in-flight model; BlockError observed through a recording StatSlot in a copy of the global chain",
+         "Exploration: generated isolation rule sets and hotspot concurrency rules (indices, keys, overrides, capacities) with build/exit interleavings; admit/reject decided both ways against an in-flight model, block type and triggered rule checked in the Err text and in the BlockError a custom StatSlot receives.",
+         "Trusted: thresholds >= 1 as quantified; for hotspot batch n>1 both readings (entries vs +n) accepted between the two bounds.",
+         "5/C05"),
 }
 ALL = ["C%02d" % i for i in range(1, 21)]
 NOT_YET = "check not built yet in this round (planned, see DESIGN.md section 5)"
